@@ -15,7 +15,7 @@ REGISTRY = {
                 assumptions=['randomizer_bin_und is outside the VC generator\'s subset (whole-array set operations): bounded only',
                              'connectivity blocks of the *_connected variants and the default-D construction of the latticisers are abstracted (havoc of their write set; frame obligation syntactic)'],
                 technique='deductive: loop invariants + postconditions on the real source via own VC generator (pyvc) and z3; bounded stand-in for randomizer_bin_und'),
-    'C06': dict(extra_proved=['checks.lean_check.lean'], level='proof', bounded='checks.bounded.C06', pyvc=[(REF, 'randmio_dir_signed', None, None), (REF, 'randmio_und_signed', None, None)], trusted=PYVC_TRUSTED,
+    'C06': dict(extra_proved=['checks.lean_check.lean'], level='proof', bounded='checks.bounded.C06', pyvc=[(REF, 'randmio_dir_signed', None, None), (REF, 'randmio_und_signed', None, None), ('contracts.misc', 'pick_four_unique_nodes_quickly', None, None)], trusted=PYVC_TRUSTED,
                 technique='deductive (pyvc+z3) for randmio_*_signed; bounded stand-in for null_model_*_sign'),
     'C11': dict(extra_proved=['checks.lean_check.lean'], level='other', bounded='checks.bounded.C11',
                 pyvc=[(REF, k, C11_CLAUSES, None) for k in ['latmio_und', 'latmio_dir', 'latmio_und_connected', 'latmio_dir_connected', 'randomize_graph_partial_und']] +
